@@ -280,8 +280,41 @@ const MERGE_DOCS: [(&str, &[(&str, (usize, usize))], (usize, usize), &[(&str, (u
     ("t:\n  <<: {x: 1, y: 2}\n  z: 3\n", &[], (2, 7), &[("z", (3, 6))]),
 ];
 
+/// directive lines put in front of a rendered document (`special` 50..): every location of the
+/// span tree must still be consistent with the text (positions are not compared with the
+/// renderer's, which does not know about the prefix)
+const DIRECTIVES: [&str; 6] = ["%YAML 1.2\n---\n", "%FOO bar\n---\n", "%FOO \u{4e16}\u{754c} x\n---\n", "%TAG !e! tag:\u{e9}x,2000:\n---\n", "%F \u{1f600}\n%G \u{e9}\n---\n", "# \u{4e16}\n%FOO b\n---\n"];
+
+fn all_consistent(ix: &TextIndex, n: &Spanned<Sp>) -> Result<(), String> {
+    consistent(ix, &n.referenced, "referenced")?;
+    consistent(ix, &n.defined, "defined")?;
+    match &n.value {
+        Sp::Scalar => Ok(()),
+        Sp::Seq(v) => v.iter().try_for_each(|x| all_consistent(ix, x)),
+        Sp::Map(v) => v.iter().try_for_each(|(k, x)| all_consistent(ix, k).and_then(|()| all_consistent(ix, x))),
+    }
+}
+
 fn check_case(c: &Case) -> Outcome {
-    if c.special > 0 && c.special < 100 {
+    if c.special >= 50 && c.special < 100 {
+        let r = gdoc::render(&c.doc, &Layout { doc_start: false, ..c.layout.clone() });
+        let text = format!("{}{}", DIRECTIVES[(c.special as usize - 50) % DIRECTIVES.len()], r.text);
+        let ix = index(&text);
+        return match serde_saphyr::from_str::<Spanned<Sp>>(&text) {
+            Ok(v) => match all_consistent(&ix, &v) {
+                Ok(()) => Outcome::Pass,
+                Err(m) => Outcome::Fail(format!("{m} (text {text:?})")),
+            },
+            Err(e) => match e.without_snippet().location() {
+                Some(l) => match consistent_opt_bytes(&ix, &l, "error location") {
+                    Ok(()) => Outcome::Pass,
+                    Err(m) => Outcome::Fail(format!("{m} (text {text:?})")),
+                },
+                None => Outcome::Pass,
+            },
+        };
+    }
+    if c.special > 0 && c.special < 50 {
         let (text, base, alias, own) = MERGE_DOCS[(c.special as usize - 1) % MERGE_DOCS.len()];
         let base: Vec<(String, (usize, usize))> = base.iter().map(|(k, p)| (k.to_string(), *p)).collect();
         let own: Vec<(String, (usize, usize))> = own.iter().map(|(k, p)| (k.to_string(), *p)).collect();
@@ -484,7 +517,16 @@ impl Property for C16 {
             }
         });
         // (this renderer puts a blank after a quoted scalar only in front of a trailing comment)
-        if quoted && c.layout.comments && c.bad_leaf.is_none() && c.special == 0 { vec!["quoted_scalar_span_trailing_blanks"] } else { vec![] }
+        let mut v = vec![];
+        if quoted && c.layout.comments && c.bad_leaf.is_none() && (c.special == 0 || (50..100).contains(&c.special)) {
+            v.push("quoted_scalar_span_trailing_blanks");
+        }
+        // open finding (parser dependency): a directive line with multi-byte text advances the
+        // character index by bytes, so every later offset is too large
+        if (50..100).contains(&c.special) && !DIRECTIVES[(c.special as usize - 50) % DIRECTIVES.len()].lines().filter(|l| l.starts_with('%')).all(|l| l.is_ascii()) {
+            v.push("multibyte_directive_line");
+        }
+        v
     }
     fn shrink(c: &Case) -> Vec<Case> {
         let mut out = vec![];
@@ -554,6 +596,14 @@ impl Property for C16 {
             special: 100 + tok,
         });
         ctx.run_strategy("syntax-error-locations", 3, ctx.tier.pick(40_000, 500_000), &strat, |c| c.layout.mb_prefix || c.layout.comments);
+        // (1c) directive lines in front of the document
+        let strat = (gdoc::arb_tree(3, 16), prop::collection::vec(any::<u16>(), 8..24), 0u32..(1 << 12), 0u8..6).prop_map(|(t, s, lb, d)| Case {
+            doc: gdoc::decorate(&t, &s, 20, 20, 0),
+            layout: Layout::from_bits(lb),
+            bad_leaf: None,
+            special: 50 + d,
+        });
+        ctx.run_strategy("directive-prefix", 4, ctx.tier.pick(20_000, 200_000), &strat, |_| true);
         // (2) integer trees: spanned + every leaf in turn as a type error
         let strat = (arb_int_tree(), prop::collection::vec(any::<u16>(), 8..40), prop::sample::select(vec![(0u16, 0u16), (25, 25)]), 0u32..(1 << 12), any::<u16>()).prop_map(|(t, s, (a, al), lb, pick)| {
             let doc = gdoc::decorate(&t, &s, a, al, 0);
